@@ -204,6 +204,7 @@ def generate(zoo, outdir, features=()):
     w_arms = "".join("        %d => from_T%d(v).map(|x| w.write(&x)),\n" % (i, i) for i in idx)
     r_arms = "".join("        %d => r.read::<T%d>().map(|x| to_T%d(&x)),\n" % (i, i, i) for i in idx)
     tw_arms = "".join("        %d => from_T%d(v).map(|x| w.write(&x)),\n" % (i, i) for i in idx)
+    tr_arms = "".join("        %d => r.read::<T%d>().map(|x| to_T%d(&x)),\n" % (i, i, i) for i in idx)
     pw_arms = "".join("        %d => from_T%d(v).map(|x| w.write(&x)),\n" % (i, i) for i in idx)
     pc_arms = "".join("        %d => r.read::<T%d>().map(|_| ()),\n" % (i, i) for i in idx)
     pr_arms = "".join("        %d => r.read::<T%d>().map(|x| to_T%d(&x)),\n" % (i, i, i) for i in idx)
@@ -216,6 +217,8 @@ def generate(zoo, outdir, features=()):
           "        _ => panic!(\"no such zoo type\"),\n    }\n}\n\n"
           "pub fn twrite(ti: usize, v: &Value, w: &mut vharness::uptrace::Tw) -> Option<Result<(), asn1rs::protocol::per::Error>> {\n    match ti {\n" + tw_arms +
           "        _ => panic!(\"no such zoo type\"),\n    }\n}\n\n"
+          "pub fn tread(ti: usize, r: &mut vharness::uptrace_read::Tr<'_>) -> Result<Value, asn1rs::protocol::per::Error> {\n    match ti {\n" + tr_arms +
+          "        _ => panic!(\"no such zoo type\"),\n    }\n}\n\n"
           "pub fn pwrite(ti: usize, v: &Value, w: &mut ProtobufWriter<'_>) -> Option<Result<(), asn1rs::protocol::protobuf::Error>> {\n    match ti {\n" + pw_arms +
           "        _ => panic!(\"no such zoo type\"),\n    }\n}\n\n"
           "pub fn pread(ti: usize, r: &mut ProtobufReader<'_>) -> Result<Value, asn1rs::protocol::protobuf::Error> {\n    match ti {\n" + pr_arms +
@@ -223,7 +226,7 @@ def generate(zoo, outdir, features=()):
           "pub fn pcheck(ti: usize, r: &mut ProtobufReader<'_>) -> Result<(), asn1rs::protocol::protobuf::Error> {\n    match ti {\n" + pc_arms +
           "        _ => panic!(\"no such zoo type\"),\n    }\n}\n\n"
           "pub const TYPES: &[usize] = &[" + ", ".join(str(i) for i in idx) + "];\n\n"
-          "fn main() {\n    vharness::zoo::main(vharness::zoo::Api { write, read, twrite, pwrite, pread, pcheck, types: TYPES });\n}\n")
+          "fn main() {\n    vharness::zoo::main(vharness::zoo::Api { write, read, twrite, tread, pwrite, pread, pcheck, types: TYPES });\n}\n")
     main = os.path.join(outdir, "src", "main.rs")
     old = open(main).read() if os.path.exists(main) else None
     if old != rs:
